@@ -29,5 +29,10 @@ for sid in ids:
         len(viol), len(ded), res[sid]['bounded'], res[sid]['via_undecided'], res[sid]['undecided'], res[sid]['errors'], res[sid]['seconds']))
     sys.stdout.flush()
     subprocess.run('git -C /repo worktree remove --force %s' % wt, shell=True)
-json.dump(res, open('/verif/seeded/RESULTS.json', 'w'), indent=1)
+try:
+    allres = json.load(open('/verif/seeded/RESULTS.json'))
+except Exception:
+    allres = {}
+allres.update(res)
+json.dump(allres, open('/verif/seeded/RESULTS.json', 'w'), indent=1, sort_keys=True)
 print('caught %d / %d' % (len([k for k, v in res.items() if v.get('rc') == 1]), len(res)))
